@@ -65,7 +65,7 @@ func rulesC04(r *Run) {
 	r.Kind("R4", "K1")
 	m := planMachine(r, "R4")
 	ruleContJoin(r, "R4", m)
-	r.Expect("R4", 4)
+	r.Expect("R4", 6)
 
 	// ---- R5
 	r.Kind("R5", "K7")
@@ -456,6 +456,33 @@ func ruleContJoin(r *Run, rule string, m *Machine) {
 			return true
 		})
 	}
+	for _, sp := range spawns {
+		fn := m.States[sp.state]
+		fl, paths, ok := r.flowPaths(rule, fn)
+		if !ok {
+			continue
+		}
+		bad := ""
+		for i := range paths {
+			p := &paths[i]
+			assigned := false
+			for _, e := range p.Ev {
+				if e.Kind == EvAssign {
+					for _, l := range e.Lhs {
+						if sel, ok := ast.Unparen(l).(*ast.SelectorExpr); ok && sel.Sel.Name == "contCancel" {
+							if tv, ok := fl.Info.Types[sel.X]; ok && ShortType(tv.Type) == sp.owner {
+								assigned = true
+							}
+						}
+					}
+				}
+				if IsCall(e, keySubmit) && LitArg(e.Call) != nil && callsFunc(fl.Info, LitArg(e.Call), smKey("runContChecks")) && !assigned && bad == "" {
+					bad = "the continuous-check goroutine is submitted before its cancel function is stored in " + sp.owner + ".contCancel: the joining state could neither cancel it nor know that it exists"
+				}
+			}
+		}
+		r.Check(rule, "cont-spawn:"+sp.owner+":cancel-stored-before-submit", sp.pos, bad == "", "%s", orOK(bad, "contCancel assigned before Pool.Submit"))
+	}
 	if len(spawns) < 2 {
 		r.Unresolved(rule, "two states spawning runContChecks (plan and block)")
 	}
@@ -562,6 +589,10 @@ func ruleDrainState(r *Run, rule string, fn *Func, owner string) {
 						}
 						if sel.Sel.Name == "contCancel" && isNilBranch {
 							cancelNil = true
+							excused = true // the spawn assigns contCancel before submitting (checked at the spawn site): nil ⇒ nothing was spawned
+						}
+						if sel.Sel.Name == "contCheckResult" && isNilBranch {
+							excused = true // no channel was ever created
 						}
 					}
 				}
